@@ -7,6 +7,7 @@ import (
 	"strings"
 	"time"
 
+	"github.com/getlantern/goexpr"
 	"github.com/getlantern/sqlparser"
 	"github.com/getlantern/zenodb/core"
 	"github.com/getlantern/zenodb/sql"
@@ -105,6 +106,12 @@ func pushdownAllowed(opts *Opts, query *sql.Query) (bool, error) {
 			log.Debugf("Pushdown not allowed because subquery contains disallowed clause: %v", subQuery.SQL)
 			return false, nil
 		}
+		if hasInSubQuery(subQuery) {
+			// The leader only resolves the IN subqueries of the outermost WHERE, so
+			// each partition would evaluate this one against its own data only
+			log.Debugf("Pushdown not allowed because subquery's WHERE contains a subquery: %v", subQuery.SQL)
+			return false, nil
+		}
 	}
 
 	parentGroupByAll := true
@@ -169,6 +176,18 @@ func pushdownAllowed(opts *Opts, query *sql.Query) (bool, error) {
 	}
 
 	return false, fmt.Errorf("Should never reach this branch of pushdownAllowed")
+}
+
+func hasInSubQuery(query *sql.Query) bool {
+	found := false
+	if query.Where != nil {
+		query.Where.WalkLists(func(list goexpr.List) {
+			if _, ok := list.(*sql.SubQuery); ok {
+				found = true
+			}
+		})
+	}
+	return found
 }
 
 func planClusterPushdown(opts *Opts, query *sql.Query) (core.FlatRowSource, error) {
